@@ -42,7 +42,7 @@ QUALS = [(4, 8, 0, 4, "2=2X2=2D"), (8, 8, 4, 12, "8="), (8, 8, 0, 16, "4=4=")]  
 
 def alphabet():
     out = []
-    for read in ("r1", "r2"):
+    for read in ("r1", "#r2"):  # the second read name starts with '#' (not a comment: GAF has no comment lines)
         for tp, mapq in CLASSES:
             for matches, block, qs, qe, cg in QUALS:
                 opt = ([f"tp:A:{tp}"] if tp else []) + ["NM:i:0", f"cg:Z:{cg}"]
@@ -52,7 +52,7 @@ def alphabet():
         matches, block, qs, qe, cg = QUALS[1]
         out.append(rgfa.Rec("r1", 16, qs, qe, "+", ">s1", 20, 0, 8, matches, block, 60, ["NM:i:0", f"cg:Z:{cg}", f"tp:A:{tp}"]))
     # a primary record without any CIGAR field
-    out.append(rgfa.Rec("r2", 16, 0, 8, "+", ">s1", 20, 0, 8, 8, 8, 60, ["tp:A:P", "NM:i:0"]))
+    out.append(rgfa.Rec("#r2", 16, 0, 8, "+", ">s1", 20, 0, 8, 8, 8, 60, ["tp:A:P", "NM:i:0"]))
     return out
 
 
